@@ -2529,7 +2529,9 @@ Section RT.
     rewrite Eb. rewrite blen_cons, blen_app.
     destruct body as [h [[a b]|]|[[a b]|]| |v vs]; cbn [wf_attr_body wf_range] in Hw; cbn [print_range] in Erst; subst rst;
       cbn [app length] in *.
-    - (* INT/HEX a b *) destruct Hw as (Ha & Hb). injection Eq as <-. rewrite <- app_assoc in *. cbn [app] in *.
+    - (* INT/HEX a b *) destruct h; cbn [attr_body_type attr_type_name] in *.
+      {
+      destruct Hw as (Ha & Hb). injection Eq as <-. rewrite <- app_assoc in *. cbn [app] in *.
       repeat (rewrite app_length in HF || cbn [length] in HF).
       pose proof (blen_nonneg (print_num a)). pose proof (blen_nonneg (print_num b)).
       match goal with |- context [PS (mkS ?TT ?LA ?PP ?LL ?KK ?L2 32 ws_default) None] =>
@@ -2537,24 +2539,57 @@ Section RT.
                     ltac:(cbn [fst]; lia) ltac:(lia)) as (tk & st1 & Epk & Hty) end.
       cbn [fst] in Epk.
       assert (Ens : (t_typ tk =? c_semi) = false) by (destruct Hty as [-> | ->]; reflexivity).
-      destruct h; cbn [attr_body_type]; unfold bind at 1; unfold bind at 1; rewrite Epk, Ens; cbn [negb];
-        unfold bind at 1; rewrite (p_int_after_peek _ _ _ Epk); rewrite p_int_ws by side; rewrite stepS_plain by discriminate;
-        unfold bind at 1; rewrite p_int_ws by side; rewrite stepS_plain by discriminate;
-        unfold ret at 1; cbv beta iota; unfold bind at 1;
-        (match goal with |- context [p_token il id F c_semi (PS (mkS (59 :: 10 :: rest) ?LA ?PP ?LL ?KK ?L2 32 ws_default) None)] =>
-           destruct (finish_semi_ws rest LA PP LL KK L2 ltac:(lia) ltac:(lia)) as (st' & E & HRd) end);
-        rewrite E; unfold ret; exists st'; (split; [reflexivity|]); ready_at HRd;
-        repeat (rewrite blen_app || rewrite blen_cons); rewrite ?blen_nil; lia.
-    - (* INT/HEX *) injection Eq as <-. rewrite app_nil_r in *.
+      unfold bind at 1. unfold bind at 1. rewrite Epk, Ens. cbn [negb].
+      unfold bind at 1. rewrite (p_int_after_peek _ _ _ Epk). rewrite p_int_ws by side. rewrite stepS_plain by discriminate.
+      unfold bind at 1. rewrite p_int_ws by side. rewrite stepS_plain by discriminate.
+      unfold ret at 1. cbv beta iota. unfold bind at 1.
+      match goal with |- context [p_token il id F c_semi (PS (mkS (59 :: 10 :: rest) ?LA ?PP ?LL ?KK ?L2 32 ws_default) None)] =>
+        destruct (finish_semi_ws rest LA PP LL KK L2 ltac:(lia) ltac:(lia)) as (st' & E & HRd) end.
+      rewrite E. unfold ret. exists st'. split; [reflexivity|]. ready_at HRd.
+      repeat (rewrite blen_app || rewrite blen_cons). rewrite ?blen_nil. lia.
+      }
+      {
+      destruct Hw as (Ha & Hb). injection Eq as <-. rewrite <- app_assoc in *. cbn [app] in *.
+      repeat (rewrite app_length in HF || cbn [length] in HF).
+      pose proof (blen_nonneg (print_num a)). pose proof (blen_nonneg (print_num b)).
+      match goal with |- context [PS (mkS ?TT ?LA ?PP ?LL ?KK ?L2 32 ws_default) None] =>
+        destruct (value_peek (a, []) (print_num b ++ 32 :: 59 :: 10 :: rest) LA PP LL KK L2 (conj Ha (Forall_nil _))
+                    ltac:(cbn [fst]; lia) ltac:(lia)) as (tk & st1 & Epk & Hty) end.
+      cbn [fst] in Epk.
+      assert (Ens : (t_typ tk =? c_semi) = false) by (destruct Hty as [-> | ->]; reflexivity).
+      unfold bind at 1. unfold bind at 1. rewrite Epk, Ens. cbn [negb].
+      unfold bind at 1. rewrite (p_int_after_peek _ _ _ Epk). rewrite p_int_ws by side. rewrite stepS_plain by discriminate.
+      unfold bind at 1. rewrite p_int_ws by side. rewrite stepS_plain by discriminate.
+      unfold ret at 1. cbv beta iota. unfold bind at 1.
+      match goal with |- context [p_token il id F c_semi (PS (mkS (59 :: 10 :: rest) ?LA ?PP ?LL ?KK ?L2 32 ws_default) None)] =>
+        destruct (finish_semi_ws rest LA PP LL KK L2 ltac:(lia) ltac:(lia)) as (st' & E & HRd) end.
+      rewrite E. unfold ret. exists st'. split; [reflexivity|]. ready_at HRd.
+      repeat (rewrite blen_app || rewrite blen_cons). rewrite ?blen_nil. lia.
+      }
+    - (* INT/HEX *) destruct h; cbn [attr_body_type attr_type_name] in *.
+      {
+      injection Eq as <-. rewrite app_nil_r in *.
       match goal with |- context [PS (mkS (59 :: 10 :: rest) ?LA ?PP ?LL ?KK ?L2 32 ws_default) None] =>
         destruct (peek_ws_punct 32 59 10 rest LA PP LL KK L2 ws_default) as (tk & Epk & Ety); try side end.
-      destruct h; cbn [attr_body_type]; unfold bind at 1; unfold bind at 1; rewrite Epk, Ety; change (59 =? c_semi) with true; cbn [negb];
-        unfold ret at 1; cbv beta iota; unfold bind at 1;
-        (match goal with |- context [PS (stepS 10 rest ?PP ?LL ?KK ?L2 10 ws_default) (Some tk)] =>
-           destruct (finish_semi_look tk rest PP LL KK L2 Ety ltac:(lia)) as (st' & E2 & HRd) end);
-        rewrite E2; unfold ret; exists st'; (split; [reflexivity|]); ready_at HRd;
-        repeat (rewrite blen_app || rewrite blen_cons); rewrite ?blen_nil; lia.
-    - (* FLOAT a b *) destruct Hw as (Ha & Hb). injection Eq as <-. rewrite <- app_assoc in *. cbn [app] in *.
+      unfold bind at 1. unfold bind at 1. rewrite Epk, Ety. change (59 =? c_semi) with true. cbn [negb].
+      unfold ret at 1. cbv beta iota. unfold bind at 1.
+      match goal with |- context [PS (stepS 10 rest ?PP ?LL ?KK ?L2 10 ws_default) (Some tk)] =>
+        destruct (finish_semi_look tk rest PP LL KK L2 Ety ltac:(lia)) as (st' & E2 & HRd) end.
+      rewrite E2. unfold ret. exists st'. split; [reflexivity|]. ready_at HRd.
+      repeat (rewrite blen_app || rewrite blen_cons). rewrite ?blen_nil. lia.
+      }
+      {
+      injection Eq as <-. rewrite app_nil_r in *.
+      match goal with |- context [PS (mkS (59 :: 10 :: rest) ?LA ?PP ?LL ?KK ?L2 32 ws_default) None] =>
+        destruct (peek_ws_punct 32 59 10 rest LA PP LL KK L2 ws_default) as (tk & Epk & Ety); try side end.
+      unfold bind at 1. unfold bind at 1. rewrite Epk, Ety. change (59 =? c_semi) with true. cbn [negb].
+      unfold ret at 1. cbv beta iota. unfold bind at 1.
+      match goal with |- context [PS (stepS 10 rest ?PP ?LL ?KK ?L2 10 ws_default) (Some tk)] =>
+        destruct (finish_semi_look tk rest PP LL KK L2 Ety ltac:(lia)) as (st' & E2 & HRd) end.
+      rewrite E2. unfold ret. exists st'. split; [reflexivity|]. ready_at HRd.
+      repeat (rewrite blen_app || rewrite blen_cons). rewrite ?blen_nil. lia.
+      }
+    - (* FLOAT a b *) cbn [attr_body_type attr_type_name] in *. destruct Hw as (Ha & Hb). injection Eq as <-. rewrite <- app_assoc in *. cbn [app] in *.
       repeat (rewrite app_length in HF || cbn [length] in HF).
       pose proof (blen_nonneg (print_num a)). pose proof (blen_nonneg (print_num b)).
       match goal with |- context [PS (mkS ?TT ?LA ?PP ?LL ?KK ?L2 32 ws_default) None] =>
@@ -2570,7 +2605,7 @@ Section RT.
         destruct (finish_semi_ws rest LA PP LL KK L2 ltac:(lia) ltac:(lia)) as (st' & E & HRd) end.
       rewrite E. unfold ret. exists st'. split; [reflexivity|]. ready_at HRd.
       repeat (rewrite blen_app || rewrite blen_cons). rewrite ?blen_nil. lia.
-    - (* FLOAT *) injection Eq as <-. rewrite app_nil_r in *.
+    - (* FLOAT *) cbn [attr_body_type attr_type_name] in *. injection Eq as <-. rewrite app_nil_r in *.
       match goal with |- context [PS (mkS (59 :: 10 :: rest) ?LA ?PP ?LL ?KK ?L2 32 ws_default) None] =>
         destruct (peek_ws_punct 32 59 10 rest LA PP LL KK L2 ws_default) as (tk & Epk & Ety); try side end.
       cbn [attr_body_type]. unfold bind at 1. unfold bind at 1. rewrite Epk, Ety. change (59 =? c_semi) with true. cbn [negb].
@@ -2579,13 +2614,13 @@ Section RT.
         destruct (finish_semi_look tk rest PP LL KK L2 Ety ltac:(lia)) as (st' & E2 & HRd) end.
       rewrite E2. unfold ret. exists st'. split; [reflexivity|]. ready_at HRd.
       repeat (rewrite blen_app || rewrite blen_cons). rewrite ?blen_nil. lia.
-    - (* STRING *) injection Eq as <-. rewrite app_nil_r in *.
+    - (* STRING *) cbn [attr_body_type attr_type_name] in *. injection Eq as <-. rewrite app_nil_r in *.
       cbn [attr_body_type]. unfold bind at 1. unfold ret at 1. cbv beta iota. unfold bind at 1.
       match goal with |- context [p_token il id F c_semi (PS (mkS (59 :: 10 :: rest) ?LA ?PP ?LL ?KK ?L2 32 ws_default) None)] =>
         destruct (finish_semi_ws rest LA PP LL KK L2 ltac:(lia) ltac:(lia)) as (st' & E & HRd) end.
       rewrite E. unfold ret. exists st'. split; [reflexivity|]. ready_at HRd.
       repeat (rewrite blen_app || rewrite blen_cons). rewrite ?blen_nil. lia.
-    - (* ENUM *) destruct Hw as (Hv & Hvs). injection Eq as <-. unfold print_quoted in *.
+    - (* ENUM *) cbn [attr_body_type attr_type_name] in *. destruct Hw as (Hv & Hvs). injection Eq as <-. unfold print_quoted in *.
       cbn [app] in *. rewrite <- !app_assoc in *. cbn [app] in *.
       repeat (rewrite app_length in HF || cbn [length] in HF).
       pose proof (blen_nonneg v). pose proof (blen_nonneg (enum_list vs)). pose proof (enum_list_len vs) as Hel.
